@@ -115,8 +115,20 @@ func vworkerParked(reached chan struct{}, queued func() int) bool {
 func TestVerifHybrid(t *testing.T) {
 	tr := vopen(t, "hybrid")
 	defer tr.close()
-	r := &vrng{s: vseed()*198491317 + 61}
-	ncases := vscale(200, 6000)
+	vhybridCases(tr, 61, false, vscale(200, 6000))
+}
+
+// the same generated hybrid histories with the entry pool on (outside the model: only the implementation-side monitors
+// of C14 / C15 are read from this trace - nothing stale or deleted served, every evicted entry in one of the tiers)
+func TestVerifHybridPool(t *testing.T) {
+	tr := vopen(t, "hybridpool")
+	defer tr.close()
+	defer runtime.GOMAXPROCS(runtime.GOMAXPROCS(1))
+	vhybridCases(tr, 67, true, vscale(200, 3000))
+}
+
+func vhybridCases(tr *vtrace, salt uint64, pool bool, ncases int) {
+	r := &vrng{s: vseed()*198491317 + salt}
 	for c := 0; c < ncases; c++ {
 		loading := c%3 == 2
 		size := int64(2 + r.intn(14))
@@ -149,7 +161,7 @@ func TestVerifHybrid(t *testing.T) {
 		}
 		before := runtimeNumGoroutine()
 		var notes []string
-		s := NewStore(&StoreOptions[int, int]{MaxSize: size, SecondaryCache: sec, Workers: 1, Probability: 1,
+		s := NewStore(&StoreOptions[int, int]{MaxSize: size, SecondaryCache: sec, Workers: 1, Probability: 1, EntryPool: pool,
 			Listener: func(k, v int, reason RemoveReason) {
 				notes = append(notes, i64(int64(k)), i64(int64(v)), i64(int64(reason)))
 			}})
